@@ -229,6 +229,11 @@ example : (List.range 10).map (fun k => modelPixel exScene (80 + k) 143)
 /-- and on whole lines the model agrees with the specification, as `c15_pixel` says -/
 example : ∀ x, x < 160 → modelPixel exScene x 44 = some (dmgPixel exScene x 44) := by decide +kernel
 example : ∀ x, x < 160 → modelPixel exScene x 91 = some (dmgPixel exScene x 91) := by decide +kernel
+/-- the palette is selected by attribute bit 4 (object 3 has attr 0x50: bit 4 set, bit 3 clear): the DMG shows
+    colour 3 through OBP1 (shade 0); a renderer that looked at bit 3 – the behaviour of /repo before commit
+    95a6b76 – would take OBP0 and show shade 3 -/
+example : dmgPixel exScene 94 91 = shade exScene.obp1.val 3 ∧ shade exScene.obp1.val 3 = 0 ∧
+    shade exScene.obp0.val 3 = 3 := by decide +kernel
 /-- start states of `c15_frame`: the state `ppu.enable()` leaves (arbitrary overlaps and old frame) -/
 example (ov : Vector Bool 40) (fr : Vector Nat (160 * 144)) :
     (afterEnable ov fr).ticks = 0 ∧ ((afterEnable ov fr).mode = 1 ∨ (afterEnable ov fr).mode = 2) :=
